@@ -25,17 +25,22 @@ Definition find_start (root : rt) (z : Z) : option rt :=
   if Z.eqb z 0 then Some root
   else find (fun t => Nat.eqb (rid t) (Z.to_nat z)) (flat_map pre (rch root)).
 
-(* a case: the tree, the start nodes for the structured exports, and whole
-   Mermaid charts requested as (start, options) *)
-Definition run17 (c : rt * list Z * list (Z * mopts)) : sx :=
-  let root := fst (fst c) in
+(* a case: the tree, the start nodes for the structured exports, whole Mermaid
+   charts requested as (start, options) and whole DOT documents likewise *)
+Definition run17 (c : rt * list Z * list (Z * mopts) * list (Z * dopts)) : sx :=
+  let root := fst (fst (fst c)) in
   L [ L (map (fun z =>
                 match find_start root z with
                 | Some t => obs_start root t (Z.eqb z 0)
                 | None => A (-1)%Z
-                end) (snd (fst c)));
+                end) (snd (fst (fst c))));
       L (map (fun zo =>
                 match find_start root (fst zo) with
                 | Some t => sx_chart (mer_chart (snd zo) t)
+                | None => A (-2)%Z
+                end) (snd (fst c)));
+      L (map (fun zo =>
+                match find_start root (fst zo) with
+                | Some t => L (map sx_text (dot_doc (snd zo) (Z.eqb (fst zo) 0) (rname root) t))
                 | None => A (-2)%Z
                 end) (snd c)) ].
